@@ -13,6 +13,7 @@ func init() {
 			"(C13-c) severity table: every literal of the three error carriers has the (fatal, severe) of its wrapped error type; diff passes severities through in order; every error returned at the API boundary is recorded in Errors(); " +
 			"(C13-d) gates: stopProcessing is `exists e: fatal || stopOnError && severe` over the whole list; the analysis runs only under !stopProcessing and the stop branch returns no connections; diff decides once after all errors are recorded and computes the diff only if neither side stopped; callers of the scanner test its (always non-nil) error list by length. " +
 			"(C13-e) no error result of a module function is discarded anywhere (statement call, `_`, go/defer), one reviewed roll-back excepted. " +
+			"(C13-pairs) in package diff a datum of one input (errs1, dirPath2, ...) is never recorded or computed from the other input only, and a call that names its side by a constant is handed data of that side (the rule of C04-f: an error of the second directory recorded under the first, or not at all). " +
 			"NOT decided: how cli-runtime's builder treats a syntactically broken file placed next to good ones (third-party)."
 		rules.DocIsolation(p, r, "C13-a")
 		rules.KindTables(p, r, "C13-b")
@@ -20,5 +21,6 @@ func init() {
 		rules.ErrorRecording(p, r, "C13-c-rec")
 		rules.StopGates(p, r, "C13-d")
 		rules.ErrorsNotDropped(p, r, "C13-e")
+		rules.PairRoleConsistency(p, r, "C13-pairs")
 	})
 }
